@@ -1,7 +1,119 @@
 import Mutagen.Driver.Util
+import Mutagen.Model.Logging
 namespace Mutagen.Driver.C44
+open Mutagen.Driver Mutagen.Model.Logging
 
-/-- Model-side handler for one line of the C44 correspondence stream. -/
-def handle (_line : String) : String := "unimplemented"
+/-!
+Line: `<logger level> <names> <op> <op> …`
+
+* `<names>`: `=` followed by comma-separated hex sublogger names applied in
+  order (`=` alone: none; an empty name is the empty string between commas);
+* ops
+  * `l:<lv>:<hex>`  `Error/Warn/Info/Debug/Trace(string)` (lv 1..5),
+  * `f:<lv>:<hex>`  `Errorf/…("%s", string)`,
+  * `x:<lv>:<ts hex>:<hex>` raw `write(ts, level, message)`,
+  * `w:<lv>:<max>:<hex>;<hex>;…` `Writer(lv)` with `MaximumBufferSize = max`, one `Write` per chunk,
+  * `p:<max>:<hex>;<hex>;…` a bare `stream.LineProcessor`,
+  * `re` the source of `linePrefixMatcher`.
+
+Output: one token for the logger construction and one per op. A token is the
+records written to the sink (hex, comma separated, `.` = none, `panic`), for
+`w`/`p` followed by `/` and the per-chunk results (`<n>` or `E`).
+Records whose timestamp came from `time.Now()` carry the canonical timestamp
+`0000-00-00 00:00:00.000000` (the harness rewrites them).
+-/
+
+def now : Bytes := ascii "0000-00-00 00:00:00.000000"
+
+def showRecs : Option (List Bytes) → String
+  | none => "panic"
+  | some [] => "."
+  | some rs => ",".intercalate (rs.map encHex)
+
+def showRes (rs : List (Option Nat)) : String :=
+  ";".intercalate (rs.map fun r => match r with | some n => toString n | none => "E")
+
+def parseChunks (s : String) : Option (List Bytes) := (s.splitOn ";").mapM decHex
+
+/-- Render the model's prefix pattern in Go regexp syntax (for the `re` op). -/
+def renderPats : List Pat → Nat → String
+  | [], n => if n > 0 then "\\d{" ++ toString n ++ "}" else ""
+  | .digit :: ps, n => renderPats ps (n + 1)
+  | p :: ps, n =>
+    (if n > 0 then "\\d{" ++ toString n ++ "}" else "") ++
+    (match p with
+     | .lit b =>
+       let c := Char.ofNat b.toNat
+       if c == '.' || c == '[' || c == ']' then "\\" ++ c.toString else c.toString
+     | .cls bs => "([" ++ String.ofList (bs.map fun b => Char.ofNat b.toNat) ++ "])"
+     | .digit => "") ++ renderPats ps 0
+
+def build (l : Logger) : List Bytes → List Bytes → Option (Logger × List Bytes)
+  | [], acc => some (l, acc)
+  | n :: ns, acc =>
+    match l.sublogger now n with
+    | (l', some rs) => build l' ns (acc ++ rs)
+    | (_, none) => none
+
+def relayChunks (w : RelayWriter) : List Bytes → List Bytes → List (Option Nat) → Option (List Bytes) × List (Option Nat)
+  | [], recs, res => (some recs, res)
+  | c :: cs, recs, res =>
+    match w.write now c with
+    | (w', some rs, r) => relayChunks w' cs (recs ++ rs) (res ++ [r])
+    | (_, none, r) => (none, res ++ [r])
+
+def procChunks (p : LineProcessor) : List Bytes → List Bytes → List (Option Nat) → List Bytes × List (Option Nat)
+  | [], lines, res => (lines, res)
+  | c :: cs, lines, res =>
+    let (p', ls, r) := p.write c
+    procChunks p' cs (lines ++ ls) (res ++ [r])
+
+def parseNames (s : String) : Option (List Bytes) :=
+  match s.toList with
+  | '=' :: [] => some []
+  | '=' :: rest => ((String.ofList rest).splitOn ",").mapM decHex
+  | _ => none
+
+def stepOp (l : Logger) (op : String) : Option String :=
+  match op.splitOn ":" with
+  | ["l", lv, h] | ["f", lv, h] => do
+    let lv ← lv.toNat?
+    let m ← decHex h
+    pure (showRecs (l.log now lv m))
+  | ["x", lv, ts, h] => do
+    let lv ← lv.toNat?
+    let ts ← decHex ts
+    let m ← decHex h
+    if l.isNil then pure "nil" else
+    pure (showRecs ((write l.scope ts lv m).map fun r => [r]))
+  | ["w", lv, mx, cs] => do
+    let lv ← lv.toNat?
+    let mx ← mx.toInt?
+    let cs ← parseChunks cs
+    let w := l.writer lv
+    let w := { w with lp := { w.lp with max := mx } }
+    let (recs, res) := relayChunks w cs [] []
+    pure (showRecs recs ++ "/" ++ showRes res)
+  | ["p", mx, cs] => do
+    let mx ← mx.toInt?
+    let cs ← parseChunks cs
+    let (lines, res) := procChunks { max := mx, buffer := [] } cs [] []
+    pure (showRecs (some lines) ++ "/" ++ showRes res)
+  | ["re"] => some ("^" ++ renderPats linePrefixPattern 0)
+  | _ => none
+
+def handle (line : String) : String :=
+  match fields line with
+  | lv :: names :: ops =>
+    match lv.toNat?, parseNames names with
+    | some lv, some names =>
+      match build (newLogger lv) names [] with
+      | none => "panic"
+      | some (l, recs) =>
+        match ops.mapM (stepOp l) with
+        | some outs => " ".intercalate (showRecs (some recs) :: outs)
+        | none => "bad-op"
+    | _, _ => "bad-op"
+  | _ => "bad-op"
 
 end Mutagen.Driver.C44
